@@ -66,8 +66,8 @@ pub fn probe_flags(out: &str, cal: &Calib) -> Vec<(u32, String)> {
                         let mut sh2 = Shard::new(&format!("probe{bits}b"));
                         sh2.watchdog_s = 10;
                         let mut tmp = Report::new();
-                        let c1 = Case { entries: 4, flags: bits, linked: false, batch: vec![sym("readv:full"), sym("statx:existing"), sym("openat:existing")], rounds: 2 };
-                        let c2 = Case { entries: 4, flags: bits, linked: true, batch: vec![sym("mkdirat:new"), sym("timeout:1ms"), sym("close:valid")], rounds: 2 };
+                        let c1 = Case { entries: 4, flags: bits, linked: false, batch: vec![sym("readv:full"), sym("statx:existing"), sym("openat:existing")], rounds: 2, links: None };
+                        let c2 = Case { entries: 4, flags: bits, linked: true, batch: vec![sym("mkdirat:new"), sym("timeout:1ms"), sym("close:valid")], rounds: 2, links: None };
                         run_case(&mut sh2, &mut rs, &c1, &cal, &mut tmp, false);
                         run_case(&mut sh2, &mut rs, &c2, &cal, &mut tmp, false);
                         sh2.finish();
@@ -259,6 +259,69 @@ pub fn run(args: &Args) -> Report {
             }
         }
     }
+    // chains with every mix of {no flag, IOSQE_IO_LINK, IOSQE_IO_HARDLINK} per entry, over members that fail in the
+    // kernel's chain-severing sense (openat of a missing file, read on a bad descriptor) and members that succeed
+    if usable.contains(&0) {
+        let ms = mixed_link_syms();
+        for first in 0..ms.len() {
+            let cal_m = cal.clone();
+            let ms2 = ms.clone();
+            let cases = mixed_link_cases(&ms, first);
+            n_cases_planned += cases.len() as u64;
+            let warm = if th { 100 } else { 0 };
+            items.push(isolated(format!("mixed-links-{first}"), move || {
+                let _ = &ms2;
+                let mut r = Report::new();
+                install_watchdog();
+                let mut sh = Shard::new(&format!("mixl{first}"));
+                let mut rs = match sh.make_ring(4, 0) {
+                    Ok(x) => x,
+                    Err(e) => {
+                        r.cap(format!("mixed-links: ring set-up refused: {e}"));
+                        sh.finish();
+                        return r;
+                    }
+                };
+                if warm > 0 {
+                    let _ = warm_up(&mut rs, warm);
+                }
+                for (batch, links) in cases {
+                    let c = Case { entries: 4, flags: 0, linked: true, batch, rounds: 2, links: Some(links) };
+                    run_case(&mut sh, &mut rs, &c, &cal_m, &mut r, false);
+                }
+                drop(rs);
+                sh.finish();
+                r
+            }));
+        }
+        // optional directory descriptors of every constructor that has them
+        n_cases_planned += crate::ops_flags::dirfd_cases().len() as u64;
+        items.push(isolated("dirfd-defaults", move || {
+            let mut r = Report::new();
+            install_watchdog();
+            let mut sh = Shard::new("dirfd");
+            match sh.make_ring(4, 0) {
+                Ok(mut rs) => {
+                    for c in crate::ops_flags::dirfd_cases() {
+                        crate::ops_flags::dirfd_case(&mut sh, &mut rs, &c, &mut r, false);
+                    }
+                    drop(rs);
+                }
+                Err(e) => r.cap(format!("dirfd: ring set-up refused: {e}")),
+            }
+            sh.finish();
+            r
+        }));
+    }
+    // every constant the wrapper exports against the kernel's uapi values
+    {
+        n_cases_planned += crate::ops_flags::constant_table().len() as u64;
+        items.push(isolated("constants", move || {
+            let mut r = Report::new();
+            crate::ops_flags::check_constants(&mut r, false);
+            r
+        }));
+    }
     // the SQPOLL wake-up protocol: pure function over harness memory, and the kernel scenario
     {
         let words = crate::ops_sqpoll::words();
@@ -348,7 +411,7 @@ fn shard_body(tag: &str, p: Plan, linked: bool, cal: &Calib, each: impl FnOnce(&
             return;
         }
         let rounds = rounds_for(&p, batch.len());
-        let c = Case { entries: p.entries, flags: p.flags, linked, batch, rounds };
+        let c = Case { entries: p.entries, flags: p.flags, linked, batch, rounds, links: None };
         run_case(&mut sh, &mut rs, &c, cal, &mut r, false);
     });
     if rs.kernel_entries != p.kernel_entries {
@@ -368,7 +431,39 @@ fn shard_body(tag: &str, p: Plan, linked: bool, cal: &Calib, each: impl FnOnce(&
     r
 }
 
+pub fn mixed_link_syms() -> Vec<usize> {
+    ["openat:missing", "readv:badfd", "mkdirat:new", "openat:existing", "writev:ok"].iter().map(|n| sym(n)).collect()
+}
+
+/// every batch of length 2..3 over `ms` starting with ms[first], with every assignment of a link flag to each
+/// entry but the last
+pub fn mixed_link_cases(ms: &[usize], first: usize) -> Vec<(Vec<usize>, Vec<u8>)> {
+    let mut out = Vec::new();
+    for len in 2..=3usize {
+        for_each_seq(ms.len(), len - 1, |tail| {
+            if tail.len() != len - 1 {
+                return;
+            }
+            let mut b = vec![ms[first]];
+            b.extend(tail.iter().map(|&i| ms[i]));
+            for_each_seq(3, len - 1, |fl| {
+                if fl.len() != len - 1 {
+                    return;
+                }
+                let mut links: Vec<u8> = fl.iter().map(|&x| x as u8).collect();
+                links.push(0);
+                out.push((b.clone(), links));
+            });
+        });
+    }
+    out
+}
+
 pub fn replay(v: &Value, r: &mut Report) {
+    if matches!(v["scenario"].as_str(), Some("dirfd") | Some("constants")) {
+        crate::ops_flags::replay(v, r);
+        return;
+    }
     if v.get("scenario").is_some() {
         crate::ops_sqpoll::replay(v, r);
         return;
@@ -378,6 +473,7 @@ pub fn replay(v: &Value, r: &mut Report) {
         entries: v["ring"].as_u64().unwrap_or(4) as u32,
         flags: v["flags"].as_u64().unwrap_or(0) as u32,
         linked: v["linked"].as_bool().unwrap_or(false),
+        links: v["links"].as_array().map(|a| a.iter().map(|x| x.as_u64().unwrap_or(0) as u8).collect()),
         batch,
         rounds: v["rounds"].as_u64().unwrap_or(1) as u32,
     };
@@ -397,7 +493,7 @@ pub fn replay(v: &Value, r: &mut Report) {
         "replaying ring={} flags={} {} batch={:?} rounds={} after {prior} warm-up submissions",
         c.entries,
         flags_name(c.flags),
-        if c.linked { "linked" } else { "independent" },
+        c.mode_name(),
         c.batch.iter().map(|&s| SYMS[s].name).collect::<Vec<_>>(),
         c.rounds
     );
